@@ -841,7 +841,8 @@ func mAppendBytes(dst mv, add []byte) mv {
 
 // ---- reflect: the read-only view of a value of the model -----------------------------------------------
 // reflect.ValueOf(x) is a symbol that remembers the interface value it describes (dynamic type and payload);
-// Kind / IsValid / IsNil / Interface / Type / Len / Int / Uint / Float / Bool / String read it. Anything else on a reflect.Value stays opaque.
+// Kind / IsValid / IsNil / Interface / Type / Len / Index / Elem / Int / Uint / Float / Bool / String read it (reflect.Type:
+// Kind / String / Elem / Comparable, in mach.go). Anything else on a reflect.Value ends the run as undecided.
 
 func reflectKind(t types.Type) (int64, bool) {
 	switch u := t.Underlying().(type) {
@@ -872,6 +873,28 @@ func reflectKind(t types.Type) (int64, bool) {
 	return 0, false
 }
 
+// reflectElem: the element type of an array, channel, map, pointer or slice type (nil for other types).
+func reflectElem(t types.Type) types.Type {
+	switch u := t.Underlying().(type) {
+	case *types.Array:
+		return u.Elem()
+	case *types.Chan:
+		return u.Elem()
+	case *types.Map:
+		return u.Elem()
+	case *types.Pointer:
+		return u.Elem()
+	case *types.Slice:
+		return u.Elem()
+	}
+	return nil
+}
+
+// reflectValue: the reflect.Value of v seen at static type t (an interface-typed slot keeps its interface value).
+func reflectValue(t types.Type, v mv) *mSym {
+	return &mSym{name: "reflect.ValueOf(" + mRender(v) + ")", nonNil: true, rt: t, rv: v}
+}
+
 func (m *mach) reflectModel(method string, args []mv) (mv, bool) {
 	if method == "ValueOf" {
 		switch a := args[0].(type) {
@@ -884,12 +907,12 @@ func (m *mach) reflectModel(method string, args []mv) (mv, bool) {
 	}
 	v, ok := args[0].(*mSym)
 	if !ok || v.rv == nil {
-		return nil, false
+		m.abort("reflect.Value.%s on a value that did not come from reflect.ValueOf is outside the machine's model of package reflect", method)
 	}
 	kind := int64(reflect.Invalid)
 	if v.rt != nil {
 		if kind, ok = reflectKind(v.rt); !ok {
-			return nil, false
+			m.abort("reflect.Value.%s on a value of type %s is outside the machine's model of package reflect", method, v.rt)
 		}
 	}
 	switch method {
@@ -899,7 +922,55 @@ func (m *mach) reflectModel(method string, args []mv) (mv, bool) {
 		return v.rt != nil, true
 	case "Interface":
 		if v.rt != nil {
+			if _, isIface := v.rt.Underlying().(*types.Interface); isIface {
+				return v.rv, true // an interface-typed slot: the interface value it holds (or nil)
+			}
 			return mIface{t: v.rt, v: v.rv}, true
+		}
+	case "Index":
+		// element i of a slice, array or string of the model
+		if i, ok := args[1].(int64); ok && v.rt != nil {
+			var elems []mv
+			switch x := v.rv.(type) {
+			case mSlice:
+				elems = x.arr
+			case mArray:
+				elems = x
+			case mNilT:
+			case string:
+				if i >= 0 && i < int64(len(x)) {
+					return reflectValue(types.Typ[types.Uint8], int64(x[i])), true
+				}
+			default:
+				m.abort("reflect.Value.Index of %s is outside the model", mRender(v.rv))
+			}
+			if i < 0 || i >= int64(len(elems)) {
+				m.throw(m.sym("reflect: slice index out of range", nil), "reflect: slice index out of range")
+			}
+			if et := reflectElem(v.rt); et != nil {
+				return reflectValue(et, elems[i]), true
+			}
+		}
+	case "Elem":
+		// what an interface value holds, what a pointer points to
+		switch reflect.Kind(kind) {
+		case reflect.Interface:
+			switch x := v.rv.(type) {
+			case mIface:
+				return reflectValue(x.t, x.v), true
+			case mNilT:
+				return &mSym{name: "reflect.ValueOf(nil)", nonNil: true, rv: mNil}, true
+			}
+		case reflect.Pointer:
+			switch x := v.rv.(type) {
+			case *mv:
+				if x != nil {
+					return reflectValue(reflectElem(v.rt), *x), true
+				}
+				return &mSym{name: "reflect.ValueOf(nil)", nonNil: true, rv: mNil}, true
+			case mNilT:
+				return &mSym{name: "reflect.ValueOf(nil)", nonNil: true, rv: mNil}, true
+			}
 		}
 	case "Type":
 		if v.rt != nil {
@@ -953,11 +1024,15 @@ func (m *mach) reflectModel(method string, args []mv) (mv, bool) {
 				if x.nonNil {
 					return false, true
 				}
+			case mIface:
+				return false, true
 			}
 		default:
 			// as the reflect package does
 			m.throw(m.sym("reflect: call of reflect.Value.IsNil on "+reflect.Kind(kind).String()+" Value", nil), "reflect: call of reflect.Value.IsNil on %s Value", reflect.Kind(kind))
 		}
 	}
+	// outside the model: the run ends undecided - an invented result could be taken for the component's answer
+	m.abort("reflect.Value.%s on %s (kind %s) is outside the machine's model of package reflect", method, mRender(v.rv), reflect.Kind(kind))
 	return nil, false
 }
